@@ -470,6 +470,10 @@ class CorrData(AsciiSerializable, SampledData, Broadcastable):
             )
 
             path_prefix = Path(path_prefix)
+            # remove existing samples first, an interrupted write must not leave new
+            # data next to samples of a previous data set
+            for suffix in (".smp", ".cov"):
+                path_prefix.with_suffix(suffix).unlink(missing_ok=True)
 
             write_data(
                 path_prefix.with_suffix(".dat"),
